@@ -209,17 +209,27 @@ def locations(I, sim, tab, options=()):
                 for f, poff, ty in particle_cells():
                     out.append(Loc("%s[%d].%s" % (nm, i, f), ty, nm, (off + i * psize + poff, False, 0)))
         seen.add(nm)
-    for nm in options:
-        if nm in seen: continue
+    # every name that the table or the documentation mentions denotes a struct member: that member's own bytes (offset from
+    # the headers' debug info, not from the table) must be among the persisted locations
+    have = {lc.recipe for lc in out}
+    names = list(options) + [e['name'] for e in tab if e['dtype'] in SCALAR_SIZE]
+    done = set()
+    for nm in names:
+        if nm in done: continue
+        done.add(nm)
         try:
             off, size, m = L.member('reb_simulation', nm)
         except KeyError:
             continue
         cls = L.type_class(m['base'])
-        if cls[0] == 'float': out.append(Loc(nm, F64, nm, (off, False, 0), True))
-        elif cls[0] in ('int', 'enum'): out.append(Loc(nm, intT(8 * (cls[1] if cls[0] == 'int' else cls[2])), nm, (off, False, 0), True))
+        if cls[0] == 'float': cand = [Loc(nm if nm not in seen else 'member:' + nm, F64, nm, (off, False, 0), True)]
+        elif cls[0] in ('int', 'enum'): cand = [Loc(nm if nm not in seen else 'member:' + nm, intT(8 * (cls[1] if cls[0] == 'int' else cls[2])), nm, (off, False, 0), True)]
         elif cls[0] == 'struct' and cls[1] == 'reb_vec3d':
-            for k, c in enumerate('xyz'): out.append(Loc(nm + '.' + c, F64, nm, (off + 8 * k, False, 0), True))
+            cand = [Loc((nm if nm not in seen else 'member:' + nm) + '.' + c, F64, nm, (off + 8 * k, False, 0), True) for k, c in enumerate('xyz')]
+        else: cand = []
+        for lc in cand:
+            if lc.recipe not in have:
+                have.add(lc.recipe); out.append(lc)
     return out
 
 def symbolise(I, sim, locs, keep=()):
